@@ -14,10 +14,12 @@ META = {
                  "recorded run (stdout lines, re-read -o file, exit code) validated by TLC against ConvertTrace.tla",
     "design_ref": "DESIGN.md section 6, C14",
     "level_text": "Exhaustive on the model (all streams of <=2 messages x product option space). On the binary: the option space "
-                  "(6 window classes x 5 lifecycle classes x 9 --eac sets x 8 -f files in both formats x sort x 4 styles x -o) "
+                  "(6 window classes x 5 lifecycle classes x 9 --eac sets x 9 -f files in both formats, ids of 1..4 characters, x sort "
+                  "x 4 styles x -o) "
                   "is covered pairwise-complete per input set plus every option alone (quick), and as the full product on one "
                   "input set (thorough); input sets: 1-3 files, same/different ECUs, reboots, garbage, messages without "
-                  "extended header; every run uses a rotated permutation of the file arguments and is judged against the "
+                  "extended header, timestamps not monotone in reception order (so --sort permutes, also across -e), tied "
+                  "first reception times; every run uses a rotated permutation of the file arguments and is judged against the "
                   "reference stream obtained with the identity order.",
     "level_note": "The unfiltered annotated stream A (indices, ids, lifecycle membership) is obtained black-box from the same "
                   "binary: `-a` without selection, the lifecycle listing, and one `--lcs=k -s` run per listed lifecycle; the "
@@ -93,7 +95,7 @@ def singles(space):
     return res
 
 
-FEATS = ("ecus", "boots", "garbage", "noext", "dup")
+FEATS = ("ecus", "boots", "garbage", "noext", "dup", "jitter")
 
 
 def pick_tied(shapes, k, rnd):
@@ -242,7 +244,8 @@ def check(ctx):
     counters = {"cases": 0, "ref_cases": 0, "sel_cases": 0, "winc": {}, "lcsc": {}, "ffmt": {}, "neac": {}, "style": {}, "sort": 0,
                 "ofile": 0, "perm_non_identity": 0, "multi_file_cases": 0, "empty_output": 0, "partial_output": 0,
                 "full_output": 0, "lines": 0, "filemsgs": 0, "lifecycles_per_set": {}, "msgs_per_set": {}, "skipped_noref": 0,
-                "tied_first_rx_same_ecu_set_cases": 0, "tied_first_rx_different_ecu_sets_cases": 0, "dup_file_argument_cases": 0}
+                "jitter_sets": 0, "sorted_output_differs_from_index_order": 0, "sorted_and_e_window_cases": 0,
+                "sort_permutes_across_e_boundary": 0, "tied_first_rx_same_ecu_set_cases": 0, "tied_first_rx_different_ecu_sets_cases": 0, "dup_file_argument_cases": 0}
     seen_nontrivial = set()
     seen_ref = set()
     shape_of = {e["set"]: e["shape"] for e in plan}
@@ -262,11 +265,15 @@ def check(ctx):
             h = evs[0]["hdr"]
             if h["kind"] == "ref":
                 nmsgs = len(h["gen"])
+                key2idx = {e["key"]: e["index"] for e in evs if e["ev"] == "refline"}
+                sorted_order = next((e.get("sorted_order", []) for e in evs if e["ev"] == "end"), [])
                 if h["set"] not in seen_ref:       # the ref case is repeated at the head of every chunk file: count it once
                     seen_ref.add(h["set"])
                     counters["cases"] += 1
                     counters["ref_cases"] += 1
                     counters["lifecycles_per_set"][str(h["set"])] = sum(1 for e in evs if e["ev"] == "lc")
+                    if shape_of.get(h["set"], {}).get("jitter"):
+                        counters["jitter_sets"] += 1
                     counters["msgs_per_set"][str(h["set"])] = nmsgs
                     if k not in v.violations:
                         validated += 1
@@ -300,6 +307,21 @@ def check(ctx):
                 nf = sum(1 for e in evs if e["ev"] == "filemsg")
                 counters["lines"] += nl
                 counters["filemsgs"] += nf
+                if o["sort"]:
+                    seq = [e["index"] for e in evs if e["ev"] == "line"] or \
+                          [key2idx.get(e["key"], -1) for e in evs if e["ev"] == "filemsg"]
+                    if any(a > b for a, b in zip(seq, seq[1:])):
+                        counters["sorted_output_differs_from_index_order"] += 1
+                    if o["e"] < 2147483647:
+                        counters["sorted_and_e_window_cases"] += 1
+                        # in the unselected sorted order some message beyond -e comes before one inside the window
+                        beyond = False
+                        for ix in sorted_order:
+                            if ix > o["e"]:
+                                beyond = True
+                            elif beyond and ix >= o["b"]:
+                                counters["sort_permutes_across_e_boundary"] += 1
+                                break
                 nout = max(nl, nf)
                 if o["style"] != "none" or o["ofile"]:
                     if nout == 0:
@@ -341,7 +363,8 @@ def check(ctx):
         return          # a violating run is reported as such; vacuity and self-test only judge clean runs
     if missing or counters["partial_output"] == 0 or counters["perm_non_identity"] == 0 or counters["filemsgs"] == 0 \
             or max(counters["lifecycles_per_set"].values() or [0]) < 2 or counters["tied_first_rx_same_ecu_set_cases"] == 0 \
-            or counters["tied_first_rx_different_ecu_sets_cases"] == 0 or counters["dup_file_argument_cases"] == 0:
+            or counters["sorted_output_differs_from_index_order"] == 0 or counters["sort_permutes_across_e_boundary"] == 0 \
+            or counters["jitter_sets"] == 0 or counters["tied_first_rx_different_ecu_sets_cases"] == 0 or counters["dup_file_argument_cases"] == 0:
         raise c.ToolError("vacuous run: missing=%s counters=%s" % (missing, counters))
     st = corrupt_selftest(ctx, first_cases)
     if st is None:
